@@ -4,6 +4,7 @@
 # Licensed under the terms of 2-clause BSD license
 
 import os
+import stat
 import os.path
 
 from gemato.compression import (
@@ -55,8 +56,11 @@ def find_top_level_manifest(path='.', allow_xdev=True, allow_compressed=False):
             m_path = os.path.join(cur_path, m_name)
             # a special file is no Manifest (and opening a named pipe
             # would block forever)
-            if (os.path.exists(m_path) and not os.path.isfile(m_path)
-                    and not os.path.isdir(m_path)):
+            try:
+                m_mode = os.stat(m_path).st_mode
+            except FileNotFoundError:
+                continue
+            if not (stat.S_ISREG(m_mode) or stat.S_ISDIR(m_mode)):
                 continue
             try:
                 # note: this is safe for allow_compressed=False
